@@ -35,14 +35,30 @@ DUO_OPS = {
     'C14': ['recover', 'msgdigest'],
     'C16': ['checktx', 'checkblock'],
     'C20': ['bloom', 'murmur'],
+    # only for plans in which every simulated party lives on the same chain (the magic is process-wide)
+    'C18': ['msgrt'],
+    # a second proxy with a connection of its own
+    'C19': ['rpc'],
 }
 
 
-def duo_config(seed, prop):
+def applicable(prop, plan):
+    if prop not in DUO_OPS:
+        return False
+    if prop == 'C18':
+        chains = {p.get('chain') for p in (plan.get('config') or {}).get('parties', [])}
+        return len(chains) == 1
+    return True
+
+
+def duo_config(seed, prop, plan=None):
     """The part of a plan that describes the second thread and the scheduler (plain data)."""
     rng = random.Random(seed ^ 0x5a5a5a5a)
-    return {'seed': rng.randrange(1 << 31), 'p': rng.choice([0.002, 0.01, 0.03, 0.1]), 'quantum': rng.choice([2, 8, 40, 400]),
-            'nops': rng.choice([2, 3, 5, 8]), 'kinds': DUO_OPS[prop]}
+    cfg = {'seed': rng.randrange(1 << 31), 'p': rng.choice([0.002, 0.01, 0.03, 0.1]), 'quantum': rng.choice([2, 8, 40, 400]),
+           'nops': rng.choice([2, 3, 5, 8]), 'kinds': DUO_OPS[prop]}
+    if prop == 'C18' and plan is not None:
+        cfg['chain'] = plan['config']['parties'][0]['chain']
+    return cfg
 
 
 # ------------------------------------------------------------------ thread B's repertoire
@@ -89,6 +105,11 @@ def build_ops(cfg):
                         'elems': [gen.rhex(rng, rng.choice([0, 1, 5, 20, 32, 36])) for _ in range(rng.randint(1, 6))]})
         elif k == 'murmur':
             ops.append({'k': k, 'seed': rng.randrange(1 << 32), 'data': gen.rhex(rng, rng.randint(0, 40))})
+        elif k == 'msgrt':
+            ops.append({'k': k, 'msgs': [gen.gen_msg(rng) for _ in range(rng.randint(1, 3))], 'chain': cfg.get('chain', 'mainnet')})
+        elif k == 'rpc':
+            ops.append({'k': k, 'calls': [rng.choice(['getblockcount', 'getbestblockhash', 'getbalance', 'err']) for _ in range(rng.randint(1, 4))],
+                        'vals': [rng.randrange(1, 21 * 10 ** 14) for _ in range(4)], 'hash': gen.rhex(rng, 32)})
     return ops
 
 
@@ -216,13 +237,83 @@ def run_op(o):
     if k == 'murmur':
         import bitcoin.bloom as BL
         return BL.MurmurHash3(o['seed'], bytes.fromhex(o['data']))
+    if k == 'msgrt':
+        import io
+        import bitcoin.messages as M
+        from ref import p2p as RP
+        out = []
+        params0 = lib().params        # SelectParams installs a new object every time it is called
+        for spec in o['msgs']:
+            m = conv.msg_from_spec(spec)
+            wire = m.to_bytes()
+            back = M.MsgSerializable.stream_deserialize(io.BytesIO(wire + b'\x00'))
+            # judged against whichever chain is selected right now (during the run: the one chain all of A's
+            # parties share; in the re-execution afterwards: whatever the process is left on)
+            out.append((wire == RP.encode(spec, lib().params.NAME), back.to_bytes() == wire if back is not None else None))
+        if lib().params is not params0:
+            return 'skip'        # the first thread (re-)selected a chain while this was under way: not this thread's business
+        return tuple(out)
+    if k == 'rpc':
+        import json
+        import bitcoin.rpc as R
+
+        class Resp:
+            status = 200
+            reason = 'OK'
+
+            def __init__(self, body):
+                self.body = body
+
+            def read(self):
+                return self.body
+
+        class Conn:
+            def __init__(self):
+                self.ids = []
+                self.queue = []
+
+            def request(self, method, path, body, headers):
+                rq = json.loads(body)
+                self.ids.append(rq['id'])
+                self.last = rq
+
+            def getresponse(self):
+                return Resp(json.dumps(self.queue.pop(0)(self.last)).encode())
+
+            def close(self):
+                pass
+        c = Conn()
+        px = R.Proxy(service_url='http://u:p@localhost:8332', connection=c)
+        res = []
+        for j, call in enumerate(o['calls']):
+            v = o['vals'][j % 4]
+            if call == 'getblockcount':
+                c.queue.append(lambda rq, v=v: {'result': v % 1000000, 'error': None, 'id': rq['id']})
+                res.append(px.getblockcount())
+            elif call == 'getbestblockhash':
+                c.queue.append(lambda rq: {'result': o['hash'], 'error': None, 'id': rq['id']})
+                res.append(bytes(px.getbestblockhash()).hex())
+            elif call == 'getbalance':
+                c.queue.append(lambda rq, v=v: {'result': float('%d.%08d' % divmod(v % 10 ** 15, 10 ** 8)), 'error': None, 'id': rq['id']})
+                res.append(int(px.getbalance()))
+            else:
+                c.queue.append(lambda rq: {'result': None, 'error': {'code': -5, 'message': 'x'}, 'id': rq['id']})
+                try:
+                    px.getblockcount()
+                    res.append('no-error')
+                except R.JSONRPCError as e:
+                    res.append(type(e).__name__)
+        return (tuple(res), tuple(c.ids))
     raise ValueError(k)
 
 
 def _safe(o):
+    params0 = lib().params
     try:
         return ('ok', run_op(o))
     except Exception as e:            # noqa: BLE001 - whatever the library raises is the result
+        if o['k'] == 'msgrt' and lib().params is not params0:
+            return ('ok', 'skip')
         return ('exc', type(e).__name__)
 
 
